@@ -88,6 +88,51 @@ def cone_of_influence(pc, goal):
     return [a for a, k in zip(pc, keep) if k]
 
 
+def real_arith(t):
+    """Interpret the uninterpreted float operations as exact real arithmetic (candidate-model search only: models with
+    small dyadic values then replay exactly in floating point)."""
+    from .values import _UF
+    R = z3.RealSort()
+    x, y = z3.Var(0, R), z3.Var(1, R)
+    subs = []
+    for (name, ar), f in _UF.items():
+        if ar != 2:
+            continue
+        body = {"add": x + y, "sub": x - y, "mul": x * y, "div": x / y}.get(name)
+        if body is not None:
+            subs.append((f, body))
+    if not subs:
+        return t
+    try:
+        return z3.substitute_funs(t, *subs)
+    except Exception:
+        return t
+
+
+def finite_expand(t, k):
+    """Replace every quantifier over one Int variable by its instances at 0..k-1 (None if some quantifier is not of that
+    shape, e.g. the monotonicity axioms over reals: such assertions are dropped by the caller)."""
+    if z3.is_quantifier(t):
+        if t.num_vars() != 1 or t.var_sort(0) != z3.IntSort():
+            return None
+        body = t.body()
+        insts = []
+        for i in range(k):
+            b = finite_expand(z3.substitute_vars(body, z3.IntVal(i)), k)
+            if b is None:
+                return None
+            insts.append(b)
+        return z3.And(*insts) if t.is_forall() else z3.Or(*insts)
+    if not has_quant(t):
+        return t
+    if z3.is_app(t):
+        ch = [finite_expand(c, k) for c in t.children()]
+        if any(c is None for c in ch):
+            return None
+        return t.decl()(*ch)
+    return None
+
+
 def check_sat(assertions, timeout_ms, use_cvc5=True, seed=0):
     """Returns (verdict, model_dict_or_None, backend, seconds).
 
@@ -150,6 +195,29 @@ def discharge(ob, timeout_ms=10000, use_cvc5=True):
     elif v == "unknown" and use_cvc5:
         v, m, be, secs2 = check_sat(list(ob.pc) + [z3.Not(g)], timeout_ms, use_cvc5)
         secs += secs2
+    if v == "unknown" and ob.hints:
+        # Candidate counter-model search.  Sequence lengths are bounded by k and every quantifier over an Int index is
+        # expanded over 0..k-1 (other quantified axioms are dropped).  This weakens the hypotheses, so a model found here is
+        # only a *candidate*: it is reported as a violation only if the native replay reproduces it (run.py); otherwise the
+        # obligation stays undecided.
+        for k in (1, 2, 3, 4):
+            qf = []
+            for a in list(ob.pc) + [z3.Not(g)]:
+                e = finite_expand(a, k)
+                if e is not None:
+                    qf.append(real_arith(e))
+            extra = [h <= k for h in ob.hints]
+            sK = z3.Solver()
+            sK.set(timeout=min(timeout_ms, 10000))
+            sK.add(*qf)
+            sK.add(*extra)
+            t1 = time.time()
+            r = sK.check()
+            secs += time.time() - t1
+            if r == z3.sat:
+                LAST_MODEL = sK.model()
+                v, m, be = "candidate", _model_dict(LAST_MODEL), f"z3(finite-expansion k={k})"
+                break
     ob.verdict, ob.model, ob.backend, ob.secs = v, m, be, secs
-    ob.zmodel = LAST_MODEL if v == "sat" else None
+    ob.zmodel = LAST_MODEL if v in ("sat", "candidate") else None
     return ob
